@@ -7,7 +7,7 @@ from concurrent.futures import ThreadPoolExecutor
 pid = sys.argv[1]
 RD = os.environ.get("REFAC_DIR", "/verif/refactorings")
 vs = sys.argv[2:] or sorted(os.path.basename(p)[:-6] for p in glob.glob("%s/%s/[rstuv][0-9]*.patch" % (RD, pid)))
-PROPS = ["C%02d" % i for i in range(1, 21)]
+PROPS = os.environ["REFAC_PROPS"].split() if os.environ.get("REFAC_PROPS") else ["C%02d" % i for i in range(1, 21)]   # (REFAC_PROPS: only these checks)
 
 
 def one(v):
@@ -33,6 +33,6 @@ def one(v):
 
 with ThreadPoolExecutor(max_workers=int(os.environ.get("REFAC_JOBS", "6"))) as ex:
     for v, out in ex.map(one, vs):
-        print("%s %s: %s" % (pid, v, "all 20 checks silent" if not out else ""))
+        print("%s %s: %s" % (pid, v, ("all %d checks silent" % len(PROPS)) if not out else ""))
         for o in out:
             print("     " + o)
